@@ -47,7 +47,7 @@ def run(ctx):
         ctx.log("stress: %d rounds, %d violations" % (stress["evaluations"], len(stress.get("violations", []))))
         # terminations overlapping upload rounds, exact accounting at rest (real goroutines; no schedule point exists between
         # the unlock of usageUpdateQueueM in updateUsageQueueForOne and the end of the function)
-        term = lib.run_go(ctx, "server", "TestVerifC16TerminateStress", env={"VERIF_C16_TROUNDS": n(4, 30)}, tag="termstress",
+        term = lib.run_go(ctx, "server", "TestVerifC16TerminateStress", env={"VERIF_C16_TROUNDS": n(6, 30)}, tag="termstress",
                           prefixes=("c15", "c16", "c17", "shared"))
         if term.get("_died"):
             raise lib.Inconclusive("driver died: " + term.get("_stdout_tail", ""))
